@@ -128,6 +128,13 @@ def history_case(run, model, rng, i, sample_fresh):
 
 def directory_orders(run, model, rng):
     files = dirgen.gen_dir(model, rng, rng.randrange(2, 7), plugins=True)
+    if rng.random() < 0.5:
+        # two different logs that carry the same entry id (copied between systems, or a counter that started over): what is
+        # shown for one must not depend on the other having been shown before
+        src = rng.choice(files)
+        other = rng.choice(files)
+        twin = dirgen.set_ids(other[1], eid=src[2]["eid"])
+        files.append((rng.choice(["0_twin", "m_twin", "zz_twin"]), twin, dict(kind="pel", eid=src[2]["eid"])))
     run.evaluations += 1
     with dirgen.TempDir(files) as d:
         rc1, out1, _ = cli_runner.run_inproc(["-p", d, "-E", "-a"])
